@@ -59,6 +59,12 @@ CLAIMED = {
             "rank lists, non-contiguous and lazily conjugated core views, requires_grad cores), all four dtypes.",
             "Trusted: torch.equal, storage pointers, the checker's dense contraction. CPU only.",
             "DESIGN.md 4/C19"),
+    "C16": ("property-based testing (Hypothesis): generated base points with achievable minimal ranks and arbitrary z,w vs. an independent dense tangent-space projector built from unfolding SVDs",
+            "Generated search over order/rank profile/operator-vs-tensor/z kind/f with a dense reference projector "
+            "assembled by the checker; equality with the reference plus the projector laws (linearity, idempotence, "
+            "self-adjointness, P(x)=x, orthogonal residual, rank bound) and riemannian_gradient = P(dense gradient).",
+            "Trusted: torch SVD for the reference projector; minimality of x verified per case.",
+            "DESIGN.md 4/C16"),
     "C14": ("property-based testing (Hypothesis): generated low-rank / smooth targets with small and non-uniform modes, monitored user callback (argument validity) and dense accuracy oracle",
             "Generated search over routine x target family x order x non-uniform modes (incl. modes < rank+kick) x eps x "
             "seed x start tensor; a monitor wrapped around the user function checks every argument it receives "
